@@ -131,6 +131,8 @@ def classify(A, res, path):
                 canaries.add(o["id"])
                 canary_hit = True
                 break
+            if o.get("oid") and o.get("lemma") and kind == "precondition" and not s_.get("is_primary"):
+                continue  # a callee lemma's requires clause: the failing obligation is the calling lemma (primary span)
             if o.get("oid"):
                 oid = o["oid"]
                 where = o
@@ -233,6 +235,8 @@ def run_unit(unit, repo, outdir, seed=0, features=None, canary=True, rlimit=None
             st = "undischarged"
         res["obligations"].append({"id": ob["id"], "kind": ob["kind"], "status": st, "weight": ob["weight"]})
     for fn, meta in A.functions.items():
+        if meta.get("lemma"):
+            continue  # a named lemma of an overlay: its obligation is the lemma itself, not code of /repo
         if meta.get("contract") or any(o["fn"] == fn for o in A.obligations):
             st = "FAILED" if fn in failed_fns else ("undischarged" if u else "discharged")
             res["obligations"].append({"id": f"{unit}/{fn}/body-safety(call preconditions, overflow, bounds, termination)", "kind": "safety", "status": st, "weight": 1})
